@@ -457,6 +457,8 @@ class Fn:
     def call_tree(self, t, depth=0, inline_user=False, seen=None):
         if 'fn' in t:
             name = strip_generics(t['fn'])
+            if 'layout' in t:
+                return ('int', t['layout'])
         else:
             name = 'fnptr'
         args = tuple(self.operand_tree(a, depth + 1, inline_user, seen) for a in t['args'])
@@ -496,7 +498,7 @@ class Fn:
             if ck.startswith('Coerce') or ck in ('PtrToPtr', 'Transmute') and False:
                 return x
             if ck == 'IntToInt' or ck.startswith('Float') or ck == 'IntToFloat':
-                return ('cast', rv['to'], x)
+                return ('cast', rv['to'], x, rv['from'])
             return x
         if k == 'bin':
             op = rv['op']
@@ -593,6 +595,8 @@ def show(tree):
             return '(%s %s %s)' % (tree[1], show(tree[2]), show(tree[3]))
         if h == 'call':
             return '(' + ' '.join([short_fn(tree[1])] + [show(x) for x in tree[2:]]) + ')'
+        if h == 'cast':
+            return '(cast %s %s)' % (tree[1], show(tree[2]))
         return '(' + ' '.join(show(x) for x in tree) + ')'
     return str(tree)
 
@@ -742,8 +746,21 @@ LOG_MACROS = ('trace!', 'debug!', 'info!', 'warn!', 'error!', 'event!', 'span!',
               'trace_span!', 'debug_span!', 'info_span!', 'warn_span!', 'error_span!')
 
 
+def mac_chain(t):
+    m = t.get('macs')
+    if m:
+        return m.split('>')
+    m = t.get('mac')
+    return [m] if m else []
+
+
 def is_log_term(t):
-    return t.get('mac') in LOG_MACROS
+    """the statement / terminator comes out of a tracing / log macro expansion (directly or
+    through a local macro that expands to one)"""
+    for m in mac_chain(t):
+        if m.split('::')[-1] in LOG_MACROS:
+            return True
+    return False
 
 
 def subst(tree, env):
